@@ -445,6 +445,10 @@ def check_C11(chk):
                 pos += sz
             g.append(f"hfinal id=L{bi}-{si}-f obj={si} op=1")
             groups.append(g)
+    # the empty message given as NULL/0 and as a valid pointer/0, one-shot and streamed, interpreted
+    groups.append([f"hash id=nul-one m=null learn=0 pf=0", f"hash id=nul-one2 m=null learn=0 pf=255", f"hash id=emp-one m=- learn=0",
+                   "hinit id=nul-i obj=3", "hupdate id=nul-u obj=3 d=null op=0", "hfinal id=nul-f obj=3 op=0",
+                   "hinit id=nul-i2 obj=4", "hfinal id=nul-f2 obj=4 op=0"])
     # the learned one-shot digests themselves, interpreted once per distinct message
     g = [f"hash id=m{n} m={hx(m)} learn=0" for n, m in sorted(msgs.items())]
     groups.extend(chunks(g, 6))
